@@ -1,6 +1,7 @@
 //! C11 harness: analysis results must not depend on hash seeds / internal iteration order.
 //!   c11 one  [--spec-json J | --spec-file F | specs on stdin, one JSON per line]
-//!              spec = {"files":[["a.lua","x = 1"],["b.lua",null],…],"mode":"uri|path|single|reindex|reload","std":false,"repeat":1}
+//!              spec = {"files":[["a.lua","x = 1"],["b.lua",null],…],"mode":"uri|path|single|reindex|reload","std":false,"repeat":1,
+//!                      "libs":["lib1","lib2"]}   (with libs: main workspace = /c11ws/main, each lib = its own library workspace)
 //!              analyses every spec in THIS process and prints one canonical dump per spec (one JSON line each).
 //!              std's RandomState is re-seeded per process, so the python plugin spawns this sub-command M times
 //!              (fresh hash seeds) and compares the dumps: that is the `search` of this property.
@@ -11,7 +12,7 @@
 //!              {"k":"bo",…}   generated dependency relations (chains, cycles, self-requires, metas) and shuffled id lists
 //!                             through FileDependencyRelation::get_best_analysis_order.
 //! Registration order = order of "files" in the spec.
-use emmylua_code_analysis::{EmmyLuaAnalysis, FileId, LuaDependencyIndex, LuaType, RenderLevel, VirtualUrlGenerator, humanize_type};
+use emmylua_code_analysis::{EmmyLuaAnalysis, FileId, LuaDependencyIndex, LuaType, RenderLevel, VirtualUrlGenerator, WorkspaceFolder, humanize_type};
 use emmylua_parser::{LuaAstNode, LuaExpr, LuaSyntaxKind, LuaTokenKind};
 use serde_json::{Value, json};
 use std::collections::{BTreeMap, BTreeSet};
@@ -94,6 +95,8 @@ struct Spec {
     mode: String,
     std: bool,
     repeat: usize,
+    /// library workspace roots, relative to /c11ws (files whose name starts with such a prefix belong to that library)
+    libs: Vec<String>,
 }
 
 fn parse_spec(v: &Value) -> Spec {
@@ -110,6 +113,7 @@ fn parse_spec(v: &Value) -> Spec {
         mode: v["mode"].as_str().unwrap_or("uri").to_string(),
         std: v["std"].as_bool().unwrap_or(false),
         repeat: v["repeat"].as_u64().unwrap_or(1) as usize,
+        libs: v["libs"].as_array().map(|a| a.iter().filter_map(|x| x.as_str().map(|t| t.to_string())).collect()).unwrap_or_default(),
     }
 }
 
@@ -128,7 +132,15 @@ fn analyse_once(spec: &Spec) -> Value {
     if spec.std {
         analysis.init_std_lib(None);
     }
-    analysis.add_main_workspace(vg.base.clone());
+    if spec.libs.is_empty() {
+        analysis.add_main_workspace(vg.base.clone());
+    } else {
+        // main workspace /c11ws/main, every library its own workspace /c11ws/<lib>
+        analysis.add_main_workspace(vg.base.join("main"));
+        for l in &spec.libs {
+            analysis.add_library_workspace(&WorkspaceFolder::new(vg.base.join(l), true));
+        }
+    }
     let _ = take_recorded_orders();
     let uris: Vec<_> = spec.files.iter().map(|(n, _)| vg.new_uri(n)).collect();
     let mut returned: Vec<FileId> = Vec::new();
